@@ -30,7 +30,7 @@ PROP = dict(
              quick=dict(cases=200, shards=8, profiles=["debug"]),
              thorough=dict(cases=8000, shards=16, profiles=["debug", "release"])),
     ],
-    rule="engine rawdb: random histories containing compact() (flush + punch_holes) with the reference byte vectors compared "
+    rule="[engine schedraw: a punch is attributed to an in-flight or a COMPLETED write of the region it hits; directed schedule write-completes-while-compact-parked-after-listing] engine rawdb: random histories containing compact() (flush + punch_holes) with the reference byte vectors compared "
          "after every step (compact must not change any region's bytes, length or placement) and the complete allocator "
          "state compared with the Coq model; engine crash: histories with compact() under the durability tap — every punch "
          "range is checked by the extracted Coq monitor against every possibly-durable version of every slot, and crash "
